@@ -13,7 +13,7 @@ Separate Extraction
   Gem.GHeap.grun Gem.GHeap.heap0 Gem.GHeap.rd Gem.Segment.clusters Gem.Segment.split_runes Gem.Break.split
   Base.Utf8.decode Base.Utf8.encode Base.Utf8.valid_utf8
   Model.Hist.run_hist Model.Hist.observe Model.Hist.run_op
-  Model.Options.with_defaults Model.Options.options_eqb Check.Select.commit_expected Model.Util.range_to_indexes
+  Model.Ops.two_col_widths Model.Options.with_defaults Model.Options.options_eqb Check.Select.commit_expected Model.Util.range_to_indexes
   Model.Manip.is_space
   Check.Common.seam_safe Check.Common.contains Check.Common.pieces_safe Check.Common.plain_cfg Check.Common.norm
   Check.Select.guard_C04 Check.Select.check_C04 Check.Select.check_charcount
